@@ -38,12 +38,18 @@ def compile_it(con):
     return o
 
 
+def refusing_lookahead(sub):
+    """a look-ahead that fails by REFUSING bytes that are there (a constant that does not match): generated code raises the same
+    ConstError, so a Peek over it must give None and rewind on both sides"""
+    return sub[0] == "const" or (sub[0] == "struct" and all(s[0] in ("const", "int") for _, s in sub[1]) and any(s[0] == "const" for _, s in sub[1]))
+
+
 def peek_failed(spec, value):
     """did a Peek in this (Struct-nested) spec swallow a failure?  Its look-ahead then ran over truncated or unfit data, where
     generated code is documented to differ"""
     if spec[0] == "struct" and isinstance(value, dict):
         for name, sub in spec[1]:
-            if name and sub[0] == "peek" and dict.get(value, name) is None:
+            if name and sub[0] == "peek" and dict.get(value, name) is None and not refusing_lookahead(sub[1]):
                 return True
             if name and sub[0] == "struct" and peek_failed(sub, dict.get(value, name)):
                 return True
@@ -306,7 +312,12 @@ def seeking_cases(draw):
             elif o == "pointer":
                 out.append([fresh("p"), ["pointer", offset(ints), small()]])
             elif o == "peek":
-                out.append([fresh("k"), ["peek", small()]])
+                if draw(st.integers(0, 2)) == 0:
+                    # a look-ahead for a magic value that is usually not there
+                    magic = ["const", draw(st.sampled_from([b"\x00", b"AB", b"\x05\x05"])), None]
+                    out.append([fresh("k"), ["peek", draw(st.sampled_from([magic, ["struct", [["x", B1], [None, magic]], "ctor"]]))]])
+                else:
+                    out.append([fresh("k"), ["peek", small()]])
             elif o == "union":
                 a, b = fresh("u"), fresh("u")
                 pf = draw(st.sampled_from([None, None, 0, 1, a, b]))
